@@ -3,9 +3,27 @@ SPEC = {
     "check_vo": ["Model/PPPoESrvCheck.vo"],
     "driver": "c04",
     "component": "pppoe.Server(frame handlers)",
-    "clauses": {0: "established-after-auth: a session is shown Established only after a PAP accept for that same session (by RADIUS when configured)",
+    "driver_timeout": 2400,
+    "clauses": {0: "established-after-auth: a session is shown Established only after a PAP accept for that same session (by RADIUS when one is configured)",
                 1: "clientip-after-auth: a session holds a client address only after a PAP accept for that same session",
                 2: "ipcp-ack-after-auth: an IPCP Configure-Ack is sent only on a session with an earlier PAP accept",
                 3: "mac-ownership: a frame whose source MAC is not the session's owner leaves that session's record unchanged"},
+    "rule": "a case = one configuration (RADIUS configured or not, pool /29, /30 or none, DNS, PAP or CHAP offered) and one sequence of Ethernet frames pushed through the real receiveLoop of a pppoe.Server on an in-memory raw socket (RADIUS = the real radius.Client against a scripted loopback server); after every frame the frames sent, the RADIUS answer and the session table / MAC index / pool are compared with the Model and fed to the monitor. exhaustive stream: all sequences over the 76-symbol alphabet of the property (2 peers x session ids {1,2,7}) to depth 4 (quick) / 5 (thorough), a prefix being extended only when it reached a new server state; random stream: depth <= 40. distinct = distinct Coq case terms",
+    "assumptions": [
+        "PPPoE header Length consistent with the frame and parsable discovery tags (the byte-level bounds of handleDiscovery/handleSession are C09's); the PPP payload is arbitrary bytes",
+        "the goroutine handlePADR starts (startLCPNegotiation) has sent its Configure-Request before the next frame is handled (the driver waits for it); the Model is sequential",
+        "session expiry (cleanupLoop / CleanupExpired) is time-driven, not frame-driven, and outside the Model",
+        "Session.SessionID (random hex) is assumed unique per session; the Model uses the creation index",
+        "server.go dispatches no CHAP: a 'chap' server offers CHAP in LCP but only PAP can authenticate; the standalone Authenticator / IPCPStateMachine of auth.go / ipcp.go are not instantiated by the server and not part of this Model",
+    ],
+    "modelled": ["pkg/pppoe/server.go: receiveLoop destination filter, handleDiscovery dispatch, handlePADI, handlePADR, handlePADT, handleSession, startLCPNegotiation, handleLCP*, handlePAP, startIPCPNegotiation, handleIPCP*, handleIPPacket, sendPPPPacket counters, IPPool.Allocate/Release",
+                 "pkg/pppoe/session.go: NewSession (fields observed), SessionManager.CreateSession id search, GetSession, RemoveSession, MAC index",
+                 "pkg/pppoe/protocol.go: ParseLCPPacket, ParseLCPOptions, LCPPacket.Serialize, SerializeLCPOptions, FindTag (PPPoE header and tag parsing arrive decoded)"],
 }
-MANIFEST = {"text": "wip", "note": "wip", "technique": "wip"}
+
+MANIFEST = {
+    "text": "The Model of pppoe.Server's frame handlers (discovery, session dispatch, the LCP/PAP/IPCP handlers as server.go uses them, SessionManager, IPPool, RADIUS as an oracle) carries theorems over every frame sequence from any set of peers and every configuration: a session is shown Established, holds a client address, or gets an IPCP Configure-Ack only if an output of the history is a PAP accept of that same session (with RADIUS Access-Accept when RADIUS is configured), and a frame whose source MAC differs from a session's owner leaves that session's record exactly as it was; the monitor run on the real server's traces provably never rejects the Model. Reading predicted two defects; the check reproduced them and a third (Session.ClientMAC aliased the receive buffer) on the real code; three minimal fix commits close them, the theorems are proved at full strength on the corrected Model, and each repair is shown necessary by a vm_compute witness replayed from corpus/C04. Every run pushes exhaustive (depth 4/5, 2 peers, state-pruned) and random (depth 40) frame sequences through the real receiveLoop with a real radius.Client against a scripted RADIUS server and compares sent frames, RADIUS answers and the session table after every frame with the Model.",
+    "note": "Theorems are about the hand-written Model; the tie to pkg/pppoe is the differential run (exhaustive to a bounded depth + sampled). Decoded PPPoE headers/tags are assumed (C09 covers the byte level); expiry by timer, the PADR goroutine's scheduling and CHAP (not implemented by server.go) are outside the Model.",
+    "technique": "Rocq proof (per-session handler specification by case analysis + table invariant by induction over frame sequences + simulation of the monitor) + differential correspondence on the real receiveLoop with vm_compute evaluation of the Model and a trace monitor",
+    "design_ref": "DESIGN.md §8 C04",
+}
